@@ -55,6 +55,10 @@ structure DState where
   dup : Bool
   /-- every `notify` op so far: (peer, hash, height) -/
   notified : List (Nat × Nat × Nat)
+  /-- history monitor (`Spec.C40.monStep`): the announcements that still count -/
+  votes : List Lumina.Spec.C40.Vote := []
+  /-- heights whose header task was made to fail with a store error -/
+  storeErrs : List Nat := []
 
 def dinit : DState := { s := init, dup := false, notified := [] }
 
@@ -99,11 +103,22 @@ def step (d : DState) (line : String) : DState × String :=
     | none => (d, "bad-op")
     | some e =>
       let (s', o) := Lumina.Model.Pools.step d.s e
+      -- a notification the tracker ignores (no head yet / height ten or more below the head) does not count
       let notified := match e with
-        | .notify p x h => d.notified ++ [(p, x, h)]
+        | .notify p x h => if Lumina.Spec.C40.ignored (view d.s) h then d.notified else d.notified ++ [(p, x, h)]
         | _ => d.notified
       let pre := match o.poll with | some r => s!"poll={showPoll r} " | none => ""
-      ({ d with s := s', notified }, s!"{pre}{showState s'}")
+      let storeErrs := match e with
+        | .taskStoreErr h => d.storeErrs ++ [h]
+        | _ => d.storeErrs
+      let mop : Lumina.Spec.C40.MonOp := match e, o.poll with
+        | .notify p x h, _ => .notify p x h
+        | .removePeer p, _ => .remove p
+        | .poll, some (.readyEv ev) => .poll (some (viewEv ev))
+        | .poll, _ => .poll none
+        | _, _ => .other
+      let votes := (Lumina.Spec.C40.monStep storeErrs d.votes mop (view d.s) (view s')).1
+      ({ d with s := s', notified, votes, storeErrs }, s!"{pre}{showState s'}")
 
 /-! ### spec on the implementation's output -/
 
@@ -175,7 +190,7 @@ def spec (d : DState) (op : String) (obs : String) : String :=
       let before := view d.s
       let notified := match ws with
         | "notify" :: _ => match natArg? ws "p", natArg? ws "x", natArg? ws "h" with
-          | some p, some x, some h => d.notified ++ [(p, x, h)]
+          | some p, some x, some h => if ignored before h then d.notified else d.notified ++ [(p, x, h)]
           | _, _, _ => d.notified
         | _ => d.notified
       let stored := match ws with
@@ -183,11 +198,42 @@ def spec (d : DState) (op : String) (obs : String) : String :=
           | some h => d.s.stored ++ [(h, chainHash d.dup h)]
           | none => d.s.stored
         | _ => d.s.stored
+      let storeErrs := match ws with
+        | "storeerr" :: _ => d.storeErrs ++ (natArg? ws "h").toList
+        | _ => d.storeErrs
+      let mop : MonOp := match ws with
+        | "notify" :: _ => match natArg? ws "p", natArg? ws "x", natArg? ws "h" with
+          | some p, some x, some h => .notify p x h
+          | _, _, _ => .other
+        | "remove" :: _ => match natArg? ws "p" with
+          | some p => .remove p
+          | none => .other
+        | "poll" :: _ => .poll ((arg? os "poll").bind parseEv)
+        | _ => .other
+      let viols := (monStep storeErrs d.votes mop before after).2
+      let fresh := viols.filter (fun v => match v with
+        | .wrongHash vt => !vt.orphaned
+        | .twice vt => !vt.orphaned)
       if !specOffered stored notified after then
         "specfail C40/offered-without-announcement a pool offers a peer that did not announce the stored header's data hash"
       else if !specWindow after then
         "specfail C40/stale-pool-kept a pool more than ten heights below the newest validated height is still tracked"
       else
+        if d.dup && !viols.isEmpty then
+          -- the chain of this history has neighbouring heights with the SAME data hash: `validated_pools` is keyed
+          -- by hash, so the two heights share (and overwrite / evict) one peer list
+          "specfail C40/shared-data-hash-across-heights two tracked heights share a data hash; their validated pool is shared, so per-height duplicate / wrong-hash bookkeeping is lost"
+        else
+        match fresh, viols with
+        | .wrongHash vt :: _, _ =>
+          s!"specfail C40/wrong-hash-never-blocked peer {vt.peer} announced hash {vt.hash} for height {vt.height}, which is now validated with another hash, and was never blocked"
+        | .twice vt :: _, _ =>
+          s!"specfail C40/announced-twice-never-blocked peer {vt.peer} announced for height {vt.height} again and was not blocked"
+        | [], .wrongHash vt :: _ =>
+          s!"specfail C40/wrong-hash-vote-forgotten-by-store-error peer {vt.peer} announced hash {vt.hash} for height {vt.height}; the pool was dropped after a store error, re-created and validated with another hash; the peer was never blocked"
+        | [], .twice vt :: _ =>
+          s!"specfail C40/repeat-after-store-error-not-blocked peer {vt.peer} announced for height {vt.height}, the pool was dropped after a store error, the peer announced again and was not blocked"
+        | [], [] =>
         match ws with
         | "notify" :: _ =>
           match natArg? ws "p", natArg? ws "x", natArg? ws "h" with
